@@ -28,6 +28,7 @@ type genCfg struct {
 	allowSP            bool
 	noBranches         bool
 	opcodes            []string // restrict to these opcodes (curated executable subset), if non-nil
+	jumpBeforeLabelPct int      // % of labels preceded by `JMP label` (possibly twice, possibly with a comment in between)
 	pressureTail       bool     // before the final RET read every virtual register (all simultaneously live)
 }
 
@@ -475,6 +476,17 @@ func (g *fgen) generate() *ir.Function {
 	}
 	for i := 0; i <= n; i++ {
 		for _, l := range labelAt[i] {
+			if g.cfg.jumpBeforeLabelPct > 0 && r.intn(100) < g.cfg.jumpBeforeLabelPct {
+				for reps := 1 + r.intn(2); reps > 0; reps-- {
+					if j, _ := x86.VerifBuild("JMP", nil, []operand.Op{operand.LabelRef(l)}); j != nil {
+						g.fn.AddInstruction(j)
+						g.stats["jump_before_label"]++
+					}
+				}
+				if r.chance(1, 5) {
+					g.fn.AddComment("between")
+				}
+			}
 			if r.chance(1, 8) {
 				g.fn.AddComment("c")
 			}
